@@ -393,7 +393,7 @@ def identity_check(gen):
         n5 = [x for x in it["rules_applied"] if x.get("rule") == "N5"]
         if n5:
             back = X.invert_n5(back, n5)
-        pre = [x for x in it["rules_applied"] if x.get("rule") in ("O1", "N4", "N2b", "N3", "N3b")]
+        pre = [x for x in it["rules_applied"] if x.get("rule") in ("O1", "N4", "N2b", "N3", "N3b", "N7")]
         if pre:
             back = X.invert_prepass(back, pre)
         want = X.token_texts(it["raw_text"])
